@@ -532,6 +532,14 @@ pub fn gen_string(rg: &mut Rg, cfg: &GenCfg) -> EnumSpec {
                         lits[i].push(c);
                     }
                 }
+                // a case-variant sibling of the variant's own spelling (legal while the variant is case-sensitive;
+                // the repair step re-spells it otherwise)
+                if rg.chance(1, 6) && !cfg.plain_literals {
+                    let sib = flip_some(rg, &lits[0]);
+                    if sib != lits[0] && !lits.contains(&sib) {
+                        lits.push(sib);
+                    }
+                }
                 rg.shuffle(&mut lits);
                 for l in lits {
                     attrs.push(VAttr::Serialize(l));
